@@ -106,7 +106,7 @@ ADDENDA = {
  "C13": "R13.6: tombstones survive the undo (no Delete on dirtyState; the storage undo stores the recorded value, nil included, on every path). R13.5 also pairs the reset of nextRevisionId with the truncation of validRevisions. R13.7: the undo path removes cache entries only from the account-record cache.",
  "C15": "R15.6: electorate snapshot; R15.7: the electorate update reaches every non-final status. R15.8: the availability sets of roles and dapps stay within the frozen reference.",
  "C16": "R16.7: every verdict of checkTargetAvailability is among the origins of the target error checkIBTP returns. R16.8: an AppchainManager entry that cascades PauseChainService does so on every successful path after the status change. R16.9: UnPauseChainService only on the approved branch of Manage or behind a comparison of the restored status with available / freezing. R16.5 also: the cached service record is allocated per event. R16.10: no pre-check table of the repository's governance objects admits an operation from logouting / forbidden.",
- "C17": "R17.6: index -> record key agreement; R17.7: every role predicate of RoleManager decides on each of its parameters. R17.8: no creating entry offers a direct self permission; R17.9: the permission kinds of every guarded entry stay within the frozen who-may-call table. R17.10: a Self / Admin permission on a loaded Service / Dapp is checked against the record's owner field.",
+ "C17": "R17.6: index -> record key agreement; R17.7: every role predicate of RoleManager decides on each of its parameters. R17.8: no creating entry offers a direct self permission; R17.9: the permission kinds of every guarded entry stay within the frozen who-may-call table. R17.10: a Self / Admin permission on a loaded Service / Dapp is checked against the record's owner field. R17.11: replacing an id list deletes the reverse entries (admin -> chain) of the replaced ids.",
  "C18": "R18.2 pairs marking and appending both ways. R18.6: updateCommittedNonce stores the reported nonce unchanged.",
  "C19": "R19.4 requires the commit clamp to be exactly priorityIndex.size(); R19.5: key agreement of the pool indexes. R19.2 generalised: the map handed to a per-account structure is made in the same loop iteration. R19.5 also: an index that records its key time deletes entries under the recorded time. R19.6: a raw insertion into a timed index with a side table is reached only after the slot's old entry was deleted or found absent.",
  "C20": "R20.4: the applied index persisted by reportState is the one recorded for the reported height. R20.7: the raft snapshot payload carries n.lastExec, the height paired with appliedIndex. R20.3 also: SetBatchSeqNo takes over its argument on every path. R20.8: a failed range fetch of SyncCFTBlocks is not skipped.",
